@@ -115,6 +115,7 @@ def evalcopy(names, props):
     open(ct, "w").write(txt)
     env = dict(ENV, VERIF_REPO=rp, QVNT_REPO=rp,
                VERIF_EVIDENCE_DIR=os.path.join(vr, "work", "seed_evidence"), VERIF_REPLAYS_DIR=os.path.join(vr, "work", "seed_replays"))
+    explicit = bool(props)
     if not props:
         sys.path.insert(0, os.path.join(ROOT, "tools"))
         from props import PROPS
@@ -125,7 +126,10 @@ def evalcopy(names, props):
         p0 = subprocess.run(["git", "-C", rp, "apply", os.path.join(d, "patch.diff")], capture_output=True, text=True)
         if p0.returncode != 0:
             print(name, "patch does not apply:", p0.stderr[:300]); continue
-        meta["check_results"] = {}
+        if explicit:
+            meta.setdefault("check_results", {})     # re-evaluation of some checks: the others keep their recorded result
+        else:
+            meta["check_results"] = {}
         for p in props:
             t0 = time.time()
             q = subprocess.run([os.path.join(vr, "check"), p, "--tier", "quick"], cwd=vr, env=env, stdout=subprocess.PIPE, stderr=subprocess.STDOUT, text=True, timeout=3600)
